@@ -822,4 +822,223 @@ theorem step_refines (r : Reg) (op : ROp) (h : Inv r) : Refines r op := by
 theorem inv_new : Inv new := ⟨by simp [new], rfl⟩
 theorem abs_new : abs new = [PMap.empty] := rfl
 
+/-! ### one entry per key (`HashMap`) -/
+
+theorem Scope.keys_erase (s : Scope) (k : Key) : (s.erase k).keys = s.keys.filter (fun a => a != k) := by
+  induction s with
+  | nil => rfl
+  | cons e t ih =>
+    obtain ⟨a, c⟩ := e
+    simp only [Scope.erase, Scope.keys, List.map_cons, List.filter_cons]
+    by_cases h : a = k
+    · simp [h]; exact ih
+    · simp [h]; exact ih
+
+theorem Scope.nodup_erase (s : Scope) (k : Key) (h : s.nodupKeys) : (s.erase k).nodupKeys := by
+  simp only [Scope.nodupKeys, Scope.keys_erase]; exact h.filter _
+
+theorem Scope.nodup_put (s : Scope) (k : Key) (c : Cell) (h : s.nodupKeys) : (s.put k c).nodupKeys := by
+  have h1 := Scope.nodup_erase s k h
+  simp only [Scope.nodupKeys, Scope.put, Scope.keys, List.map_cons, List.nodup_cons] at *
+  refine ⟨?_, h1⟩
+  have := Scope.keys_erase s k
+  simp only [Scope.keys] at this
+  rw [this]; simp
+
+theorem Scope.keys_modify (s : Scope) (k : Key) (f : Cell → Cell) : (s.modify k f).keys = s.keys := by
+  induction s with
+  | nil => rfl
+  | cons e t ih =>
+    obtain ⟨a, c⟩ := e
+    simp only [Scope.modify]
+    split
+    · simp [Scope.keys]
+    · simp only [Scope.keys, List.map_cons] at *; rw [ih]
+
+theorem Scope.nodup_modify (s : Scope) (k : Key) (f : Cell → Cell) (h : s.nodupKeys) : (s.modify k f).nodupKeys := by
+  simp only [Scope.nodupKeys, Scope.keys_modify]; exact h
+
+theorem nodupKeys_cons (s : Scope) (p : Reg) : nodupKeys (s :: p) ↔ s.nodupKeys ∧ nodupKeys p := by
+  simp [nodupKeys]
+
+theorem nodupKeys_modifyAt (r : Reg) (i : Nat) (F : Scope → Scope) (h : nodupKeys r)
+    (hF : ∀ s, s.nodupKeys → (F s).nodupKeys) : nodupKeys (modifyAt r i F) := by
+  induction r generalizing i with
+  | nil => exact h
+  | cons s p ih =>
+    rw [nodupKeys_cons] at h
+    cases i with
+    | zero => simp only [modifyAt, nodupKeys_cons]; exact ⟨hF s h.1, h.2⟩
+    | succ i => simp only [modifyAt, nodupKeys_cons]; exact ⟨h.1, ih i h.2⟩
+
+theorem nodupKeys_writeAt (r : Reg) (i : Nat) (k : Key) (f : Nat → Nat) (h : nodupKeys r) :
+    nodupKeys (writeAt r i k f) :=
+  nodupKeys_modifyAt r i _ h (fun s hs => Scope.nodup_modify s k _ hs)
+
+theorem nodupKeys_put_at (r : Reg) (i : Nat) (k : Key) (c : Cell) (h : nodupKeys r) :
+    nodupKeys (modifyAt r i (·.put k c)) :=
+  nodupKeys_modifyAt r i _ h (fun s hs => Scope.nodup_put s k c hs)
+
+theorem nodupKeys_erase_at (r : Reg) (i : Nat) (k : Key) (h : nodupKeys r) :
+    nodupKeys (modifyAt r i (·.erase k)) :=
+  nodupKeys_modifyAt r i _ h (fun s hs => Scope.nodup_erase s k hs)
+
+theorem nodupKeys_writeAll (cs : List (Nat × Key)) (d : Nat) (r : Reg) (h : nodupKeys r) :
+    nodupKeys (writeAll r cs d) := by
+  induction cs generalizing r with
+  | nil => exact h
+  | cons c cs ih => exact ih _ (nodupKeys_writeAt r c.1 c.2 _ h)
+
+theorem nodupKeys_insert (r : Reg) (k : Key) (v : Nat) (h : nodupKeys r) : nodupKeys (insert r k v).1 := by
+  cases r with
+  | nil => simp [insert, nodupKeys, Scope.nodupKeys, Scope.keys]
+  | cons s p =>
+    rw [nodupKeys_cons] at h
+    simp only [insert, nodupKeys_cons]; exact ⟨Scope.nodup_put s k _ h.1, h.2⟩
+
+theorem nodupKeys_drop (r : Reg) (d : Nat) (h : nodupKeys r) : nodupKeys (r.drop d) :=
+  fun s hs => h s (List.mem_of_mem_drop hs)
+theorem nodupKeys_take (r : Reg) (d : Nat) (h : nodupKeys r) : nodupKeys (r.take d) :=
+  fun s hs => h s (List.mem_of_mem_take hs)
+theorem nodupKeys_append (a b : Reg) (ha : nodupKeys a) (hb : nodupKeys b) : nodupKeys (a ++ b) := by
+  intro s hs; rcases List.mem_append.mp hs with h | h
+  · exact ha s h
+  · exact hb s h
+
+theorem setValue_reg (r : Reg) (k : Key) (v : Nat) :
+    (setValue r k v).1 = r ∨ ∃ i f, (setValue r k v).1 = modifyAt r i (·.modify k f) := by
+  unfold setValue
+  cases h1 : tryBorrowMut r k with
+  | error e => exact Or.inl rfl
+  | ok x =>
+    obtain ⟨r', i⟩ := x
+    simp only
+    unfold tryBorrowMut at h1
+    cases hf : find r k with
+    | none => simp [hf] at h1
+    | some j =>
+      simp only [hf] at h1
+      cases hc : cellAt r j k with
+      | none => simp [hc] at h1
+      | some c =>
+        simp only [hc] at h1
+        cases hb : c.tryBorrowMut with
+        | none => simp [hb] at h1
+        | some c' =>
+          simp only [hb, Except.ok.injEq, Prod.mk.injEq] at h1
+          obtain ⟨h1, h2⟩ := h1
+          subst h1 h2
+          cases hc2 : cellAt (modifyAt r j fun x => x.modify k fun _ => c') j k with
+          | none => exact Or.inl rfl
+          | some c2 =>
+            refine Or.inr ⟨j, (fun c0 => Cell.release { val := v, readers := c'.readers, writer := c'.writer } true), ?_⟩
+            simp only [releaseAt, modifyAt_modifyAt, Scope.modify_modify]
+
+theorem occWrite_nodup (r : Reg) (i : Nat) (k : Key) (f : Nat → Nat) (h : nodupKeys r) :
+    nodupKeys (occWrite r i k f).1 := by
+  unfold occWrite
+  split
+  · split
+    · exact h
+    · exact nodupKeys_writeAt _ _ _ _ h
+  · exact h
+
+theorem orInsert_nodup (r : Reg) (e : Nat × Bool) (k : Key) (v : Nat) (h : nodupKeys r) :
+    nodupKeys (orInsert r e k v).1 := by
+  unfold orInsert
+  split
+  · exact occWrite_nodup r _ k _ h
+  · exact nodupKeys_put_at _ _ _ _ h
+
+theorem andModify_nodup (r r' : Reg) (e : Nat × Bool) (k : Key) (d : Nat) (h : nodupKeys r)
+    (h' : andModify r e k d = some r') : nodupKeys r' := by
+  unfold andModify at h'
+  split at h'
+  · have := occWrite_nodup r e.1 k (· + d) h
+    cases hw : occWrite r e.1 k (fun x => x + d) with
+    | mk r1 o =>
+      rw [hw] at this h'
+      cases o <;> simp at h' <;> (subst h'; exact this)
+  · cases h'; exact h
+
+/-- Every operation keeps the keys of every map unique. -/
+theorem step_nodupKeys (r : Reg) (op : ROp) (h : nodupKeys r) : nodupKeys (step r op).1 := by
+  cases op with
+  | ins k v => exact nodupKeys_insert r k v h
+  | rem k | take k =>
+    simp only [step, remove]
+    split
+    · exact h
+    · split
+      · exact nodupKeys_erase_at _ _ _ h
+      · exact h
+  | hasTop k | has k | find k | findMut k | get k | tryGet k | req k | dump => exact h
+  | set k v =>
+    simp only [step]
+    rcases setValue_reg r k v with h1 | ⟨i, f, h1⟩
+    · rw [h1]; exact h
+    · rw [h1]; exact nodupKeys_modifyAt r i _ h (fun s hs => Scope.nodup_modify s k _ hs)
+  | getMut k v =>
+    simp only [step]
+    split
+    · dsimp only; exact nodupKeys_writeAt _ _ _ _ h
+    · exact h
+  | entOrIns k v | entOrWith k v | entOrDef k => exact orInsert_nodup r _ k _ h
+  | entMod k d | entModV k d =>
+    simp only [step]
+    split
+    · rename_i r' heq; exact andModify_nodup r r' _ k d h heq
+    · exact h
+  | entModOrIns k d v =>
+    simp only [step]
+    split
+    · rename_i r' heq; exact orInsert_nodup r' _ k v (andModify_nodup r r' _ k d h heq)
+    · exact h
+  | occGet k => exact h
+  | occGetMut k v | occIntoMut k v =>
+    simp only [step]
+    split
+    · exact occWrite_nodup r _ k _ h
+    · exact h
+  | occIns k v =>
+    simp only [step, occInsert]
+    split
+    · split
+      · exact nodupKeys_put_at _ _ _ _ h
+      · exact h
+    · exact h
+  | occRem k =>
+    simp only [step, occRemove]
+    split
+    · split
+      · exact nodupKeys_erase_at _ _ _ h
+      · exact h
+    · exact h
+  | vacIns k v =>
+    simp only [step, vacInsert]
+    split
+    · exact h
+    · exact nodupKeys_put_at _ _ _ _ h
+  | push => simp only [step, intoChild, nodupKeys_cons]; exact ⟨by simp [Scope.nodupKeys, Scope.keys], h⟩
+  | pop =>
+    simp only [step]
+    cases r with
+    | nil => simp [intoParent, nodupKeys, Scope.nodupKeys, Scope.keys]
+    | cons s p =>
+      cases p with
+      | nil => simpa [intoParent] using h
+      | cons s' p' => rw [nodupKeys_cons] at h; simpa [intoParent] using h.2
+  | parGet d k => simp only [step]; split <;> exact h
+  | parIns d k v =>
+    simp only [step]
+    split
+    · simp only [under]
+      exact nodupKeys_append _ _ (nodupKeys_take r d h) (nodupKeys_insert _ k v (nodupKeys_drop r d h))
+    · exact h
+  | multi ks d =>
+    simp only [step]
+    split
+    · exact nodupKeys_writeAll _ _ _ h
+    · exact h
+
 end MahfModel.Registry
